@@ -948,4 +948,156 @@ theorem putRecords_graph (rs : List Rec) (s : Sess) (hp : s.pend = []) :
     rcases hmem with h | h
     · exact Or.inl h
     · right; subst h; rfl
+
+/-! ## `record_call_node`, any variant -/
+
+
+theorem recordArgs_graph (v : Variant) (c : H) (args : List ArgSpec) (s : Sess) :
+    G (recordArgs v c args s).view = G s.view ∧
+    (∀ snap ∈ (recordArgs v c args s).log, snap ∈ s.log ∨ G snap.db = G s.view) := by
+  induction args generalizing s with
+  | nil => exact ⟨rfl, fun snap h => Or.inl h⟩
+  | cons a rest ih =>
+    simp only [recordArgs]
+    have h1 := recordValue_graph v a.value s
+    have hg : G (((recordValue v a.value s).add (.arg ⟨c, a.slot, a.value.row.hash⟩)).addAll
+        (a.upstream.map (fun u => RowOp.argRes ⟨c, a.slot, u⟩))).view = G s.view := by
+      simp only [view_addAll, view_add]
+      rw [G_applyOps _ _ (by simp [List.filterMap_map, Function.comp_def, nodeOf])
+        (by simp [List.filterMap_map, Function.comp_def, edgeOf]) (by simp [List.filterMap_map, Function.comp_def, subOf])]
+      exact h1.1
+    have h2 := ih (((recordValue v a.value s).add (.arg ⟨c, a.slot, a.value.row.hash⟩)).addAll
+        (a.upstream.map (fun u => RowOp.argRes ⟨c, a.slot, u⟩)))
+    refine ⟨h2.1.trans hg, ?_⟩
+    intro snap hmem
+    rcases h2.2 snap hmem with h | h
+    · simp only [log_addAll, log_add] at h
+      exact h1.2.1 snap h
+    · exact Or.inr (h.trans hg)
+
+theorem recordValue_congr {v v' : Variant} (h : v.atomicValue = v'.atomicValue) (x : ValueSpec) (s : Sess) :
+    recordValue v x s = recordValue v' x s := by
+  unfold recordValue recordValueCore
+  rw [h]
+
+theorem recordValues_congr {v v' : Variant} (h : v.atomicValue = v'.atomicValue) (xs : List ValueSpec) (s : Sess) :
+    recordValues v xs s = recordValues v' xs s := by
+  induction xs generalizing s with
+  | nil => rfl
+  | cons x rest ih => simp only [recordValues, List.foldl_cons] at ih ⊢; rw [recordValue_congr h]; exact ih _
+
+/-- a durable state of the unrepaired `record_call_node` between its commits: the node and its child edges are
+there, its subtree rows are not (yet) -/
+def CallNodeBare (a : CallArgs) (db0 d : Db) : Prop :=
+  hasNode db0 a.node.call = false ∧ d.nodes = db0.nodes ++ [a.node] ∧
+    d.edges = db0.edges ++ edgeRows (applyOp db0 (.node a.node)) a.node.call a.children ∧
+    d.subtree = db0.subtree
+
+/-- **`record_call_node`, any variant**: every durable state it can leave behind has the old call graph, or the
+new node with its edges but WITHOUT subtree rows (only the unrepaired code), or the complete new node, or the
+healed node. -/
+theorem recordCallNode_shapes (v : Variant) (a : CallArgs) (s : Sess) (hp : s.pend = []) :
+    (recordCallNode v a s).pend = [] ∧
+    (∀ snap ∈ (recordCallNode v a s).log, snap ∈ s.log ∨ CallNodeSnap v a s.db snap.db ∨ CallNodeBare a s.db snap.db) ∧
+    CallNodeFinal v a s.db (recordCallNode v a s).db := by
+  cases hv : v.atomicCallNode with
+  | true =>
+    have h := recordCallNode_atomic v hv a s hp
+    exact ⟨h.1, fun snap hm => (h.2.1 snap hm).elim Or.inl (fun x => Or.inr (Or.inl x)), h.2.2⟩
+  | false =>
+    have hview := view_of_pend_nil s hp
+    cases hnode : hasNode s.db a.node.call with
+    | true =>
+      -- same code path as the repaired variant (existing node: heal or nothing)
+      have : recordCallNode v a s = recordCallNode { v with atomicCallNode := true } a s := by
+        have hc := recordValues_congr (v := v) (v' := { v with atomicCallNode := true }) rfl (taskValues a.subtree) s
+        unfold recordCallNode
+        simp only [hview, hnode, if_true, hc]
+      rw [this]
+      have h := recordCallNode_atomic { v with atomicCallNode := true } rfl a s hp
+      refine ⟨h.1, fun snap hm => (h.2.1 snap hm).elim Or.inl (fun x => Or.inr (Or.inl ?_)), ?_⟩
+      · exact x
+      · exact h.2.2
+    | false =>
+      unfold recordCallNode
+      simp only [hview, hnode, hv]
+      simp only [Bool.false_eq_true, if_false]
+      -- pending: node + edges
+      generalize hs2 : (s.add (.node a.node)).addAll (edgeOps (s.add (.node a.node)).view a.node.call a.children) = s2
+      have hview1 : (s.add (.node a.node)).view = applyOp s.db (.node a.node) := by rw [view_add, hview]
+      have hbare : s2.view.nodes = s.db.nodes ++ [a.node] ∧
+          s2.view.edges = s.db.edges ++ edgeRows (applyOp s.db (.node a.node)) a.node.call a.children ∧
+          s2.view.subtree = s.db.subtree := by
+        rw [← hs2, view_addAll, hview1]
+        have he := edgeOps_graph (applyOp s.db (.node a.node)) a.node.call a.children
+        simp only [applyOps_nodes, applyOps_edges, applyOps_subtree, he.1, he.2.1, he.2.2, List.append_nil]
+        simp [applyOp]
+      have hlog2 : s2.log = s.log := by rw [← hs2]; rfl
+      have bare_of : ∀ d : Db, G d = G s2.view → CallNodeBare a s.db d := by
+        intro d hd
+        have := G_eq hd
+        exact ⟨hnode, this.1.trans hbare.1, this.2.1.trans hbare.2.1, this.2.2.trans hbare.2.2⟩
+      -- _record_args and its commit
+      have h3 := recordArgs_graph v a.node.call a.args s2
+      generalize hs3 : recordArgs v a.node.call a.args s2 = s3 at *
+      have h4log : ∀ snap ∈ s3.commit.log, snap ∈ s.log ∨ CallNodeBare a s.db snap.db := by
+        intro snap hm
+        rcases log_commit s3 with hl | hl
+        · rw [hl] at hm
+          rcases h3.2 snap hm with h | h
+          · exact Or.inl (hlog2 ▸ h)
+          · exact Or.inr (bare_of _ h)
+        · rw [hl] at hm; simp only [List.mem_append, List.mem_singleton] at hm
+          rcases hm with hm | hm
+          · rcases h3.2 snap hm with h | h
+            · exact Or.inl (hlog2 ▸ h)
+            · exact Or.inr (bare_of _ h)
+          · subst hm; exact Or.inr (bare_of _ h3.1)
+      have hp4 : s3.commit.pend = [] := pend_commit s3
+      have hv4 : G s3.commit.view = G s2.view := by rw [view_commit]; exact h3.1
+      -- optional task values
+      have h5 : ∀ s5 : Sess, s5 = (if (a.children.any fun ch => !hasNode s3.commit.view ch) = true then
+            recordValues v (taskValues a.subtree) s3.commit else s3.commit) →
+          G s5.view = G s2.view ∧ s5.pend = [] ∧ (∀ snap ∈ s5.log, snap ∈ s.log ∨ CallNodeBare a s.db snap.db) := by
+        intro s5 h
+        split at h
+        · subst h
+          have hr := recordValues_graph v (taskValues a.subtree) s3.commit
+          refine ⟨hr.1.trans hv4, hr.2.2 hp4, ?_⟩
+          intro snap hm
+          rcases hr.2.1 snap hm with h' | h'
+          · exact h4log snap h'
+          · exact Or.inr (bare_of _ (h'.trans hv4))
+        · subst h; exact ⟨hv4, hp4, h4log⟩
+      generalize hs5 : (if (a.children.any fun ch => !hasNode s3.commit.view ch) = true then
+            recordValues v (taskValues a.subtree) s3.commit else s3.commit) = s5 at *
+      obtain ⟨hg5, hp5, hlog5⟩ := h5 s5 rfl
+      -- the subtree rows
+      have hshape : (s5.addAll (subOps a.node.call a.subtree)).view.nodes = s.db.nodes ++ [a.node] ∧
+          (s5.addAll (subOps a.node.call a.subtree)).view.edges =
+            s.db.edges ++ edgeRows (applyOp s.db (.node a.node)) a.node.call a.children ∧
+          (s5.addAll (subOps a.node.call a.subtree)).view.subtree =
+            s.db.subtree ++ a.subtree.map (fun t => ⟨a.node.call, t⟩) := by
+        have hg := G_eq hg5
+        have h2 := subOps_graph a.node.call a.subtree
+        simp only [view_addAll, applyOps_nodes, applyOps_edges, applyOps_subtree, h2.1, h2.2.1, h2.2.2,
+          List.append_nil, hg.1, hg.2.1, hg.2.2, hbare.1, hbare.2.1, hbare.2.2]
+        exact ⟨trivial, trivial, trivial⟩
+      refine ⟨pend_commit _, ?_, ?_⟩
+      · intro snap hm
+        rcases log_commit (s5.addAll (subOps a.node.call a.subtree)) with hl | hl
+        · rw [hl] at hm
+          rcases hlog5 snap (by simpa using hm) with h | h
+          · exact Or.inl h
+          · exact Or.inr (Or.inr h)
+        · rw [hl] at hm; simp only [log_addAll, List.mem_append, List.mem_singleton] at hm
+          rcases hm with hm | hm
+          · rcases hlog5 snap hm with h | h
+            · exact Or.inl h
+            · exact Or.inr (Or.inr h)
+          · subst hm
+            exact Or.inr (Or.inl (Or.inr (Or.inl ⟨hnode, hshape⟩)))
+      · rw [db_commit]
+        unfold CallNodeFinal
+        exact ⟨fun _ => hshape, fun h => (by rw [hnode] at h; cases h), fun h => (by rw [hnode] at h; cases h)⟩
 end RedunModel.Db
